@@ -185,6 +185,9 @@ func mkQ(a int8, s string) *Q { return &Q{A: a, S: s} }
 func nilSlice() []int { var s []int; return s }
 func nilMap() map[string]int { var m map[string]int; return m }
 func zeroP() *P { return &P{} }
+func mapdel(m map[string]int, k1 string, k2 string) map[string]int { delete(m, k1); delete(m, k2); return m }
+func mapdelf(m map[float64]string, k1 float64, k2 float64) map[float64]string { delete(m, k1); delete(m, k2); return m }
+func wrapm(m map[string]int) []map[string]int { return []map[string]int{m} }
 `
 
 type c14Case struct {
@@ -305,6 +308,28 @@ func c14One(w *c14Worker, seed int64, idx int) (string, c14Case, bool) {
 			return mismatch("zero-valued struct reference", "&{X:0 Name: F:0 B:0 Ok:false U:0}", got), cs, true
 		}
 		if rng.Chance(1, 4) {
+			// a struct reference built by the host from the type's prototype prints like one built by a script
+			cs.Kind = "struct reference built with NewStruct"
+			base := w.m.VM.Get("main.P")
+			var hv goatlang.Value
+			if p := core.Guard(func() {
+				hv = goatlang.NewStruct(base, []goatlang.Value{goatlang.String("X"), goatlang.Int32(x), goatlang.String("Name"), goatlang.String(name), goatlang.String("Ok"), goatlang.Bool(ok)})
+			}); p != "" {
+				return "NewStruct panicked: " + p, cs, true
+			}
+			wantH := fmt.Sprintf("&{X:%v Name:%v F:0 B:0 Ok:%v U:0}", x, name, ok)
+			if got := hv.String(); got != wantH {
+				return mismatch("Value.String of a struct reference built with NewStruct", wantH, got), cs, true
+			}
+			got, _, e := w.out("f2", 0, hv, goatlang.Int(7))
+			if e != "" {
+				return e, cs, true
+			}
+			if got != wantH+" 7\n" {
+				return mismatch("fmt.Println(structRef built with NewStruct, 7)", wantH+" 7\n", got), cs, true
+			}
+		}
+		if rng.Chance(1, 4) {
 			// the declaration of a struct type may run more than once in one VM (a type declared in a function
 			// that is called repeatedly, the same source evaluated or loaded again): instances still print
 			// every field once, in declaration order
@@ -346,6 +371,72 @@ func c14One(w *c14Worker, seed int64, idx int) (string, c14Case, bool) {
 			}
 			if o.Rets[0] != want {
 				return mismatch(fmt.Sprintf("struct reference after its type declaration ran %d times", runs), want, o.Rets[0]), cs, true
+			}
+		}
+		if rng.Chance(1, 3) {
+			// a map that had entries deleted renders its live entries only (top level, nested, host-side)
+			cs.Kind = "map after deletes"
+			keys := []string{"a", "b", "c", "d"}[:rng.Range(3, 4)]
+			keep := rng.Intn(len(keys))
+			var in []goatlang.Value
+			var del []goatlang.Value
+			for i, k := range keys {
+				in = append(in, goatlang.String(k), goatlang.Int(i+1))
+				if i != keep && len(del) < 2 {
+					del = append(del, goatlang.String(k))
+				}
+			}
+			for len(del) < 2 {
+				del = append(del, goatlang.String("zz"))
+			}
+			if len(keys) == 4 {
+				// a third key goes through the host API
+				for i, k := range keys {
+					if i != keep && k != del[0].String() && k != del[1].String() {
+						hm := goatlang.NewMap(goatlang.TypeString, goatlang.TypeInt32, in)
+						hm.Delete(goatlang.String(k))
+						in = nil
+						next := hm.Range()
+						for {
+							kk, vv, ok := next()
+							if !ok {
+								break
+							}
+							in = append(in, kk, vv)
+						}
+					}
+				}
+			}
+			mv := goatlang.NewMap(goatlang.TypeString, goatlang.TypeInt32, in)
+			wantM := fmt.Sprintf("map[%s:%d]", keys[keep], keep+1)
+			_, rets, e := w.out("mapdel", 1, mv, del[0], del[1])
+			if e != "" {
+				return e, cs, true
+			}
+			if got := rets[0].String(); got != wantM {
+				return mismatch("Value.String of a map after deletes", wantM, got), cs, true
+			}
+			got, _, e := w.out("f1", 0, rets[0])
+			if e != "" {
+				return e, cs, true
+			}
+			if got != wantM+"\n" {
+				return mismatch("fmt.Println of a map after deletes", wantM+"\n", got), cs, true
+			}
+			_, wr, e := w.out("wrapm", 1, rets[0])
+			if e != "" {
+				return e, cs, true
+			}
+			if got := wr[0].String(); got != "["+wantM+"]" {
+				return mismatch("a map after deletes nested in a slice", "["+wantM+"]", got), cs, true
+			}
+			fm := goatlang.NewMap(goatlang.TypeFloat64, goatlang.TypeString, []goatlang.Value{goatlang.Float64(0.5), goatlang.String("h"), goatlang.Float64(2), goatlang.String("t"), goatlang.Float64(-1), goatlang.String("m")})
+			_, fr, e := w.out("mapdelf", 1, fm, goatlang.Float64(0.5), goatlang.Float64(-1))
+			if e != "" {
+				return e, cs, true
+			}
+			if got := fr[0].String(); got != "map[2:t]" {
+				return mismatch("a float-keyed map after deletes", "map[2:t]", got), cs, true
 			}
 		}
 	default: // typed nil containers
@@ -466,7 +557,7 @@ func c14RandCycle(rng *core.Rng) string {
 }
 
 func runC14(r *core.Run) {
-	r.SetRule("values of every supported kind (bool; int32/int8/uint8/uint32 boundaries; float64 classes: +-0, +-Inf, NaN, subnormal, 1e20/1e21, 1e-4/1e-5, 2^53, shortest-representation stress values, random bit patterns; strings incl. spaces, newlines, quotes, invalid UTF-8; slices nested to depth 5; mixed []any; single-entry maps; typed nil slice/map; struct references, also after their type declaration ran several times in one VM) rendered through Value.String and through script println / fmt.Println with 1-4 operands / fmt.Print / fmt.Sprint with host-supplied operands; cyclic object graphs (fixed catalogue plus random rings through struct fields, slices, maps and []any) rendered in a child process. non-trivial = every case (each renders at least one value); distinct by value description")
+	r.SetRule("values of every supported kind (bool; int32/int8/uint8/uint32 boundaries; float64 classes: +-0, +-Inf, NaN, subnormal, 1e20/1e21, 1e-4/1e-5, 2^53, shortest-representation stress values, random bit patterns; strings incl. spaces, newlines, quotes, invalid UTF-8; slices nested to depth 5; mixed []any; single-entry maps, also ones that are single-entry because the other entries were deleted; typed nil slice/map; struct references built by the host with NewStruct; struct references, also after their type declaration ran several times in one VM) rendered through Value.String and through script println / fmt.Println with 1-4 operands / fmt.Print / fmt.Sprint with host-supplied operands; cyclic object graphs (fixed catalogue plus random rings through struct fields, slices, maps and []any) rendered in a child process. non-trivial = every case (each renders at least one value); distinct by value description")
 	r.Assume("fmt.Sprint / Sprintln on the mirrored native value are the specification; multi-entry map order, nil pointers and nested struct references inside containers are not specified by the property and not judged; for cyclic graphs only termination and bounded size are judged")
 	n := r.N(20000, 800000)
 	core.Parallel((n+99)/100, func(chunk int) {
